@@ -41,13 +41,13 @@ def key_of(h, payload):
 PROFILES = {
     # weights of operation kinds and fault knobs per property
     "C01": dict(notw=[(0, 1), (1, 8), (1, 3)], ops=40, edge_types=True, leave_w=2, ctl_w=6,
-                pub_w=10, noise_w=1, clock_w=1),
+                pub_w=10, noise_w=1, clock_w=1, early=6),
     "C05": dict(notw=[(0, 1), (1, 8)], ops=60, edge_types=False, leave_w=1, ctl_w=4, pub_w=16,
                 noise_w=1, clock_w=3, early=4),
     "C19": dict(notw=[(0, 1), (1, 8)], ops=50, edge_types=False, leave_w=2, ctl_w=14, pub_w=5,
                 noise_w=4, clock_w=1, early=5),
     "C14": dict(notw=[(1, 3), (1, 2), (1, 8)], ops=40, edge_types=False, leave_w=4, ctl_w=5,
-                pub_w=12, noise_w=1, clock_w=1),
+                pub_w=12, noise_w=1, clock_w=1, early=6),
 }
 
 
@@ -890,16 +890,22 @@ class PubSubRun:
             exempt = h.msg_type == C.MT_FAILED_MESSAGE or h.msg_type in C.LOG_TYPES
             must = Counter()
             may = Counter()
+
+            def mid_then(c_, _seq=d.fr.done_seq):
+                # the id the manager knew that connection by when it handled this message (a module that subscribed
+                # before connecting is module 0 until its handshake has been processed)
+                st_ = model.state_at(c_, _seq)
+                return st_[2] if st_ is not None else model.conns[c_].mod_id
             for c in d.dropped:
-                must[model.conns[c].mod_id] += 1
+                must[mid_then(c)] += 1
             for c in d.wfailed:
                 if c in d.recipients:
-                    must[model.conns[c].mod_id] += 1
+                    must[mid_then(c)] += 1
             # silent either way: subscribed, not writable, but excluded by the destination filter
             W = net.wprobe.get(d.fr.round, frozenset())
             for c in d.sub_any:
                 if c not in d.eligible and c not in W:
-                    may[model.conns[c].mod_id] += 1
+                    may[mid_then(c)] += 1
             got = Counter(fm.dest_mod_id for fm in notices.get(tag, ()))
             if d.logger_waited:
                 res.probes["logger_waited"] += 1
@@ -928,7 +934,7 @@ class PubSubRun:
             missing = must - got
             if missing:
                 mid = next(iter(missing))
-                why = "not writable" if any(model.conns[c].mod_id == mid for c in d.dropped) else "write failed"
+                why = "not writable" if any(mid_then(c) == mid for c in d.dropped) else "write failed"
                 res.add("C14", "missing_notice",
                         f"message type={h.msg_type} tag={tag}: subscriber id {mid} ({why}) was skipped but "
                         f"{got.get(mid, 0)} of {must[mid]} FAILED_MESSAGE notices naming it reached the logger monitor")
@@ -942,7 +948,7 @@ class PubSubRun:
             extra += Counter()
             if extra:
                 mid = next(iter(extra))
-                isl = any(model.conns[c].mod_id == mid and model.conns[c].is_logger for c in d.recipients)
+                isl = any(mid_then(c) == mid and model.conns[c].is_logger for c in d.recipients)
                 res.add("C14", "unsound_notice" if not isl else "logger_skipped",
                         f"message type={h.msg_type} tag={tag}: {extra[mid]} notice(s) name module {mid} which was "
                         f"{'a waited-for logger' if isl else 'not an undeliverable subscriber'}")
@@ -966,6 +972,8 @@ def _oracle_c14_manager_originated(self, model, mon, sub_since):
     expected = defaultdict(Counter)     # round -> Counter((type, module id))
     observed = defaultdict(Counter)
     optional = defaultdict(Counter)
+    import bisect
+    read_seqs_ = sorted(fr.seq for fr in net.reads)
     blocked_of = {}
     for ev in net.events:
         if ev[1] == "ROUND_WRITABLE":
@@ -993,7 +1001,22 @@ def _oracle_c14_manager_originated(self, model, mon, sub_since):
             if st is None:
                 continue
             alive, subs, mod_id, is_logger = st
-            if not alive or is_logger:
+            if not alive:
+                # a connection whose connect request is being refused right now (M is a by-product of handling that
+                # very request): it had subscribed before connecting and may still be served -- and named, by its
+                # old or by the requested id -- or not
+                m_ = model.conns[conn]
+                if m_.removed_how == "refused" and m_.removed_seq is not None and m_.removed_seq < wfr.seq:
+                    k_ = bisect.bisect_right(read_seqs_, m_.removed_seq)
+                    nxt_ = read_seqs_[k_] if k_ < len(read_seqs_) else float("inf")
+                    pre_ = model.state_at(conn, m_.removed_seq)
+                    if wfr.seq < nxt_ and pre_ is not None and pre_[0] and not pre_[3] \
+                            and (h.msg_type in pre_[1] or ALL in pre_[1]) and conn in blocked:
+                        optional[wfr.round][(h.msg_type, m_.mod_id)] += 1
+                        if pre_[2] != m_.mod_id:
+                            optional[wfr.round][(h.msg_type, pre_[2])] += 1
+                continue
+            if is_logger:
                 continue
             if not (h.msg_type in subs or ALL in subs):
                 continue
